@@ -251,6 +251,7 @@ func (x *Exec) execFor(st *State, s *ast.ForStmt, label string) *State {
 	lc := &loopCtx{label: label}
 	x.loops = append(x.loops, lc)
 	nb := len(body.pc)
+	x.coverLoop(body, s)
 	end := x.execBlock(body, s.Body.List)
 	x.loops = x.loops[:len(x.loops)-1]
 	back := x.merge(nb, append([]*State{end}, lc.continues...))
@@ -370,6 +371,7 @@ func (x *Exec) execRange(st *State, s *ast.RangeStmt, label string) *State {
 		lc := &loopCtx{label: label}
 		x.loops = append(x.loops, lc)
 		nb := len(body.pc)
+		x.coverLoop(body, s)
 		end := x.execBlock(body, s.Body.List)
 		x.loops = x.loops[:len(x.loops)-1]
 		back := x.merge(nb, append([]*State{end}, lc.continues...))
@@ -464,6 +466,7 @@ func (x *Exec) execRange(st *State, s *ast.RangeStmt, label string) *State {
 		lc := &loopCtx{label: label}
 		x.loops = append(x.loops, lc)
 		nb := len(body.pc)
+		x.coverLoop(body, s)
 		end := x.execBlock(body, s.Body.List)
 		x.loops = x.loops[:len(x.loops)-1]
 		back := x.merge(nb, append([]*State{end}, lc.continues...))
@@ -505,6 +508,7 @@ func (x *Exec) execRange(st *State, s *ast.RangeStmt, label string) *State {
 			lc := &loopCtx{label: label}
 			x.loops = append(x.loops, lc)
 			nb := len(body.pc)
+			x.coverLoop(body, s)
 			end := x.execBlock(body, s.Body.List)
 			x.loops = x.loops[:len(x.loops)-1]
 			back := x.merge(nb, append([]*State{end}, lc.continues...))
@@ -538,6 +542,7 @@ func (x *Exec) execRange(st *State, s *ast.RangeStmt, label string) *State {
 		lc := &loopCtx{label: label}
 		x.loops = append(x.loops, lc)
 		nb := len(body.pc)
+		x.coverLoop(body, s)
 		end := x.execBlock(body, s.Body.List)
 		x.loops = x.loops[:len(x.loops)-1]
 		back := x.merge(nb, append([]*State{end}, lc.continues...))
@@ -644,4 +649,15 @@ func (x *Exec) unitTracksGhost(name string) bool {
 		}
 	}
 	return false
+}
+
+// coverLoop: the body of a loop with a contract must be reachable from the
+// invariants (invariants that contradict the loop condition make everything
+// proved about the body vacuous).
+func (x *Exec) coverLoop(st *State, s ast.Stmt) {
+	li := x.loopInfo(s)
+	if li == nil || len(li.Invariants) == 0 {
+		return
+	}
+	x.cover(st, "cover-loop", fmt.Sprintf("loop%d.body", li.Ordinal), s)
 }
